@@ -243,3 +243,21 @@ def rm_search_heavy(cfg, kmax=6):
         return False
     enc, _ = try_build(Cfg(*cfg[:3]))
     return enc is not None and enc.generator_matrix.shape[0] > kmax
+
+
+def warm(obj, n, soft=False, rows=3):
+    """history: one earlier NATIVE call of obj with `rows` rows of concrete data (bits, or LLRs when soft) before any contract runs
+    on it, so that every obligation meets an object that has already been used with another batch size; whatever the object keeps
+    between calls must not leak into the next result.  The outcome of that call is a clause of every obligation that calls a
+    method of obj through ctx.call (vk.harness.Ctx.call)."""
+    import torch
+
+    t = torch.arange(rows * n)
+    x = ((t * 7 % 11).float() - 5.3).reshape(rows, n) if soft else ((t * 5 % 3) % 2).reshape(rows, n).float()
+    try:
+        with torch.no_grad():
+            obj(x)
+        obj._vk_warm_exc = None
+    except Exception as e:
+        obj._vk_warm_exc = repr(e)
+    return obj
